@@ -1,6 +1,7 @@
 import Driver.VMStage
 import Driver.FrontStage
 import Driver.LRStage
+import Driver.WFStage
 
 open Theo.Drv
 
@@ -15,6 +16,7 @@ def handle (line : String) : String :=
   | "PARSE" :: rest => handleParse rest
   | "GEN" :: rest => handleGen rest
   | "LR" :: rest => handleLR rest
+  | "WF" :: rest => handleWF rest
   | _ => "BADREQ"
 
 partial def loop (h : IO.FS.Stream) (out : IO.FS.Stream) : IO Unit := do
